@@ -1,8 +1,16 @@
 """Per-property claims rendered into MANIFEST.json by tools/mkmanifest.py."""
 HOOK_COMMITS = []   # no source hooks needed so far
-FIX_COMMITS = ["750ea7d fix: RouterOS join nested sections (C04)", "e01415d fix: optixtrans match expression (C18)", "12c75c5 fix: make_patch op order (C13)", "8c66073 fix: resolved pointers escaped (C13)", "4756b94 fix: huawei multi_all unchanged lines (C11)", "81e31d8 fix: implicit default block with its defaults (C17)", "5bfc12a fix: order_config word boundary (C08)", "943f14e fix: patch sort key (C08)", "1bcbbe1 fix: rewrite logic sends the new line ... (C01)", "28efb2a fix: file mode builds the patch from the complete diff (C16)", "c62ee59 fix: pool parent loop leaves only when the done queue is drained (C12)"]
+FIX_COMMITS = ["6c8c7e3 fix: huawei next_hop return (C14)", "42d8898 fix: arista large-community-list ACL (C14)", "9c40074 fix: refuse before emitting (C14)", "750ea7d fix: RouterOS join nested sections (C04)", "e01415d fix: optixtrans match expression (C18)", "12c75c5 fix: make_patch op order (C13)", "8c66073 fix: resolved pointers escaped (C13)", "4756b94 fix: huawei multi_all unchanged lines (C11)", "81e31d8 fix: implicit default block with its defaults (C17)", "5bfc12a fix: order_config word boundary (C08)", "943f14e fix: patch sort key (C08)", "1bcbbe1 fix: rewrite logic sends the new line ... (C01)", "28efb2a fix: file mode builds the patch from the complete diff (C16)", "c62ee59 fix: pool parent loop leaves only when the done queue is drained (C12)"]
 PENDING = {}
 CLAIMS = {
+    "C14": {
+        "technique": "TLA+ clauses for shipped policy generators (Rpl.tla: error-before-emit machine, reference/definition syntax tables; Acl.tla; Offside.tla); TLC-enumerated route-map programs built as real RouteMap objects; event streams of real runs judged by a TLC trace judge",
+        "text": "TLC enumerates all programs of one statement with <=2 conditions x <=2 actions over catalogues of 14 documented R.* conditions and 16 rule.* actions (57k programs; sampled in the quick tier) and checks the "
+                "error-before-emit machine against its declarative reading; each program, plus seeded programs over extended catalogues (25 conditions, 37 actions, 1-2 statements), runs through the shipped huawei and arista "
+                "RoutingPolicyGenerator (thin logging subclass), through _run_partial_generator(use_acl=True) and the shipped community/prefix/as-path/rd list generators; judged: no error after an emitted line of the same "
+                "condition/action, no AclError, output nesting = generated nesting, every referenced list defined under the same name and kind.",
+        "note": "Vendors huawei and arista; cumulus (generate_cumulus_rpl) not bound. One fixed entity set. Reference/definition syntax is a table of the spec (trusted reading of the vendor CLI).",
+    },
     "C15": {
         "technique": "TLA+ mesh handler semantics (Mesh.tla: handler tables, order-free field-by-field combination vs sequential merging); TLC MC with handler application as actions in every order; real MeshExecutor on both ends under every registration permutation judged by a TLC trace judge",
         "text": "TLC applies every subset of a handler menu in every order: the sequentially merged state equals the order-free combination and a conflict is raised in every order or in none. Real MeshRulesRegistry + "
